@@ -59,6 +59,8 @@ type c10Scenario struct {
 	Rereg bool `json:"rereg,omitempty"`
 	// SlowUs: every handler invocation takes that long (a handler slower than the stream)
 	SlowUs int `json:"slow_us,omitempty"`
+	// HandlerErr: the handlers return an error for every other notification
+	HandlerErr bool `json:"handler_err,omitempty"`
 }
 
 type c10Deliver struct {
@@ -124,6 +126,15 @@ func c10Send(ctx context.Context, nonce string, e c10Emit) error {
 		return sender.SendCustomNotification(c10Method["log"], map[string]interface{}{"level": "info", "data": msg, "_meta": meta})
 	case e.Kind == "custom" && !e.Meta:
 		return sender.SendCustomNotification(c10Method["custom"], map[string]interface{}{"seq": float64(e.I), "text": msg, "nested": map[string]interface{}{"a": []interface{}{1.0, "x", nil}}})
+	case e.MetaOnly && e.I%2 == 1:
+		// a hand-built notification (no constructor): only _meta is set
+		n := &mcp.Notification{Method: c10Method["custom"]}
+		if m, ok := meta.(mcp.Meta); ok {
+			n.Params.Meta = m
+		} else {
+			n.Params.Meta = mcp.Meta(meta.(map[string]interface{}))
+		}
+		return sender.SendNotification(n)
 	case e.MetaOnly:
 		return sender.SendCustomNotification(c10Method["custom"], map[string]interface{}{"_meta": meta})
 	default:
@@ -324,6 +335,10 @@ func c10RunGroup(group []c10Scenario) []c10Result {
 			}
 			results[k].Delivered = append(results[k].Delivered, c10Deliver{Kind: c10Kind(n.Method), Meta: meta, I: i, Intact: intact, Detail: detail, AfterRet: returned[nonce]})
 			ev(group[k].ID, map[string]interface{}{"e": "deliver", "kind": c10Kind(n.Method), "meta": meta, "i": i})
+			if group[0].HandlerErr && i%2 == 1 {
+				// what a handler returns is the application's business: the call goes on
+				return fmt.Errorf("handler-error-%d", i)
+			}
 			return nil
 		})
 	}
